@@ -30,10 +30,13 @@ LEVEL = {
                "C07; (R08.2) only the scoped wrapper ever leaves the context object; (R08.3) __aexit__ disables the "
                "wrapper and closes the real iterator exactly once on every path, independent of the exit reason, and "
                "is the only closer in the module; (R08.4) scoped_iter wraps the very iterator it got (no unwrapping), "
-               "with a neutral context only for iterators without aclose.",
+               "with a neutral context only for iterators without aclose; (R08.5) tools applied one after the other see the items "
+               "that follow those consumed before: islice table and lock-step argument order (shared with C05/C01); (R08.6) a scope "
+               "is single-use: the wrapper field is written once, on the arm that found it unset, and never reset (no second "
+               "handle, no second close).",
     "not_decided": "the item sequence seen by successive tools inside the block (value level, C01 residual); exit by "
                    "exception / cancellation running __aexit__ is the language's async-with guarantee.",
-    "technique": "static analysis: effect-freedom, escape and exactly-once path rules",
+    "technique": "static analysis: effect-freedom, escape, exactly-once path and typestate (single-use) rules; islice table by abstract evaluation",
 }
 
 CTX = "asynctools._ScopedAsyncIteratorContext"
